@@ -198,8 +198,15 @@ func (r *Report) Finish(p *Prog, known *KnownFindings, evidenceDir, tier string,
 	for _, id := range r.ruleOrd {
 		st := r.rules[id]
 		ruleStats = append(ruleStats, st)
+		// the floor is the number of instances confirmed by hand on the repaired tree. A consolidation may merge two
+		// of them (two call sites into one helper), which is no reason to distrust the rule: falling below the floor is
+		// noted, falling below half of it (or to zero) means the rule has lost its subject and nothing it says counts
 		if st.Instances < st.Floor {
-			floorErr = append(floorErr, fmt.Sprintf("rule %s has %d instances, floor %d", id, st.Instances, st.Floor))
+			if st.Instances == 0 || 2*st.Instances < st.Floor {
+				floorErr = append(floorErr, fmt.Sprintf("rule %s has %d instances, floor %d", id, st.Instances, st.Floor))
+			} else {
+				out.Lines = append(out.Lines, fmt.Sprintf("NOTE rule %s has %d instances, %d were confirmed by hand (instances were merged or removed)", id, st.Instances, st.Floor))
+			}
 		}
 	}
 
